@@ -161,7 +161,9 @@ where
         ctx.viol("C14", "unclaimed_handle_reports_claimed".into(), String::new());
     }
     ctx.claim_depth += 1;
-    let rounds = ctx.rng.range(1, 3);
+    // 0 rounds: the guard is dropped (or unwound) without ever allocating through it
+    let rounds = ctx.rng.range(0, 3);
+    let nested_unused = ctx.rng.chance(1, 3);
     let unwound = region(ctx, |ctx| {
         let mut g = orig.claim();
         ctx.ev("claim_enter");
@@ -170,6 +172,23 @@ where
         after(ctx, &*g, Expect::default());
         if tuple_of(&before) != tuple_of(&ctx.view) {
             ctx.viol("C14", "claim_guard_does_not_start_where_original_was".into(), format!("{:?} vs {:?}", tuple_of(&before), tuple_of(&ctx.view)));
+        }
+        if nested_unused {
+            // a nested claim that nobody uses: the outer guard must continue afterwards
+            ctx.begin("claim: nested claim on the guard, dropped unused".into());
+            let inner = g.claim();
+            if !g.is_claimed() {
+                ctx.viol("C14", "is_claimed_false_during_claim".into(), "outer guard while the nested claim is alive".into());
+            }
+            drop(inner);
+            if g.is_claimed() {
+                ctx.viol("C14", "still_claimed_after_guard_drop".into(), "outer guard after the unused nested claim was dropped".into());
+            }
+            after(ctx, &*g, Expect::default());
+        }
+        if rounds == 0 && ctx.catch_depth > 0 && ctx.rng.chance(1, 3) {
+            ctx.begin("unwind (injected panic leaves the unused claim)".into());
+            std::panic::panic_any(InjectedExit);
         }
         for _ in 0..rounds {
             probe_claimed(orig, &*g, ctx);
